@@ -122,8 +122,8 @@ func init() {
 		Rule: "1-4 writers (regular API) run while a feed with a checkpoint prefix in resume mode is started through alternating handles, allowed a PRNG-chosen number of callbacks (the callback parks on a channel so events stay queued), stopped by its terminator, its checkpoint document read, 3-8 times; then a Dump resume run catches up; oracle: the checkpoint's last_seq never exceeds the highest CAS the feed delivered so far, the final version (read-back CAS) of every key is in the union of the runs' deliveries, and the newest version delivered for a key describes its final state (deletion iff it has no body, the same body bytes); while the feed is stopped, keys of their own are re-created over tombstones that earlier runs already delivered and checkpointed (Add, AddRaw, WriteCas 0, Set, WriteResurrectionWithXattrs, Update) and never touched again, so only a resume can deliver their final version; schedule noise at the commit->post hook; also under the race detector; cell = (writers, restarts, stops while writers active, bucket type)",
 		Assumptions: []string{"the checkpoint document itself is excluded from the must-deliver set (it is written by the feed)", "stops are sampled at PRNG-chosen callback counts, not at every queue position"},
 		Parts: []sup.Part{
-			mk("C15", "checkpoint-restarts", 600, 12000, false, checkpointScenario),
-			mk("C15", "checkpoint-restarts-race", 60, 1200, true, checkpointScenario),
+			mk("C15", "checkpoint-restarts", 600, 30000, false, checkpointScenario),
+			mk("C15", "checkpoint-restarts-race", 60, 2400, true, checkpointScenario),
 		},
 		RaceOwner: func(string) bool { return false },
 		Floor: func(tier string, m *sup.Merged) string {
